@@ -74,11 +74,16 @@ func (win Window) Size() (width int, height int) {
 // the Window doesn't retain this data, if the location is outside of the
 // visible area, it is simply discarded.
 func (win Window) SetCell(col int, row int, cell Cell) {
+	win.setCell(col, row, cell)
+}
+
+// setCell places the cell and reports whether it was kept
+func (win Window) setCell(col int, row int, cell Cell) bool {
 	if row >= win.Height || col >= win.Width {
-		return
+		return false
 	}
 	if row < 0 || col < 0 {
-		return
+		return false
 	}
 	if cell.Width == 0 {
 		// The width was left for Vaxis to measure. Measure it now, the
@@ -90,13 +95,13 @@ func (win Window) SetCell(col int, row int, cell Cell) {
 	if cell.Width > 1 && col+cell.Width > win.Width {
 		// A wide character that does not fit would hang over the
 		// right edge of the window
-		return
+		return false
 	}
 	switch win.Parent {
 	case nil:
-		win.Vx.screenNext.setCell(col+win.Column, row+win.Row, cell)
+		return win.Vx.screenNext.setCell(col+win.Column, row+win.Row, cell)
 	default:
-		win.Parent.SetCell(col+win.Column, row+win.Row, cell)
+		return win.Parent.setCell(col+win.Column, row+win.Row, cell)
 	}
 }
 
@@ -153,9 +158,16 @@ func (win Window) ShowCursor(col int, row int, style CursorStyle) {
 // Fill completely fills the Window with the provided cell
 func (win Window) Fill(cell Cell) {
 	cols, rows := win.Size()
+	if cell.Width == 0 {
+		cell.Width = win.Vx.characterWidth(cell.Grapheme)
+	}
 	for row := 0; row < rows; row += 1 {
 		for col := 0; col < cols; col += 1 {
-			win.SetCell(col, row, cell)
+			if win.setCell(col, row, cell) && cell.Width > 1 {
+				// The next one goes beside this wide
+				// character, not over it
+				col += cell.Width - 1
+			}
 		}
 	}
 }
